@@ -280,6 +280,7 @@ func concScenario(c *core.Ctx) {
 				case "search":
 					req := bleve.NewSearchRequestOptions(bleve.NewMatchAllQuery(), nw*nd+10, 0, false)
 					req.Fields = []string{"ver"}
+					req.AddFacet("tags", bleve.NewFacetRequest("tags", 10)) // visits the doc values of every hit
 					res, err := idx.Search(req)
 					if err != nil {
 						c.Violate("read-error", nil, s.Steps, "%s search: %v", name, err)
@@ -287,11 +288,29 @@ func concScenario(c *core.Ctx) {
 					}
 					got := map[string]string{}
 					dup := false
+					wantTags := map[string]int{}
 					for _, h := range res.Hits {
 						if _, seen := got[h.ID]; seen {
 							dup = true
 						}
 						got[h.ID] = fmt.Sprint(h.Fields["ver"])
+						if v, ok := verNumber(got[h.ID]); ok {
+							for _, t := range model.MakeDoc(h.ID, v, false).Tags {
+								wantTags[t]++
+							}
+						}
+					}
+					// the facet is computed from the same hits: its counts are those of the versions returned
+					if fr := res.Facets["tags"]; fr != nil && !dup {
+						gotTags := map[string]int{}
+						if fr.Terms != nil {
+							for _, tf := range fr.Terms.Terms() {
+								gotTags[tf.Term] = tf.Count
+							}
+						}
+						if fmt.Sprint(gotTags) != fmt.Sprint(wantTags) {
+							c.Violate("facet-disagrees-with-hits", map[string]string{"engine": o.engine, "obs": "search"}, s.Steps, "%s search: tags facet %v, but the versions returned in the same result carry %v (hits %v)", name, gotTags, wantTags, got)
+						}
 					}
 					if dup || int(res.Total) != len(res.Hits) {
 						c.Violate("partial-batch", map[string]string{"engine": o.engine, "obs": "search"}, s.Steps, "%s search: Total=%d hits=%d duplicate=%v", name, res.Total, len(res.Hits), dup)
@@ -425,6 +444,9 @@ func concScenario(c *core.Ctx) {
 					} else if snap.count != uint64(sum) {
 						c.Violate("reader-count-mismatch", map[string]string{"engine": o.engine}, s.Steps, "%s: DocCount=%d but the same reader enumerates %d ids and finds %d documents", name, snap.count, len(snap.enum), sum)
 					}
+					if want := snap.dvExpected(); fmt.Sprint(snap.dv) != fmt.Sprint(want) && len(snap.enum) == sum {
+						c.Violate("reader-docvalues-wrong", map[string]string{"engine": o.engine}, s.Steps, "%s: doc values visited through the reader %v, but the documents the same reader returns carry %v", name, snap.dv, want)
+					}
 					c.Probe("held_reader_opened")
 				} else if snap.String() != first {
 					c.Violate("reader-unstable", map[string]string{"engine": o.engine}, s.Steps, "%s: query %d returned\n  %s\nbut the first query on the same reader returned\n  %s", name, q, snap.String(), first)
@@ -517,6 +539,17 @@ type heldSnap struct {
 	vers    map[string]string
 	markers []string
 	enum    []string
+	dv      []string // per enumerated id: the doc values of ver and tags as the reader visits them
+}
+
+// verNumber extracts n from a version string "id#n".
+func verNumber(ver string) (int, bool) {
+	i := strings.LastIndexByte(ver, '#')
+	if i < 0 {
+		return 0, false
+	}
+	n, err := strconv.Atoi(ver[i+1:])
+	return n, err == nil
 }
 
 func (h *heldSnap) String() string {
@@ -528,7 +561,7 @@ func (h *heldSnap) String() string {
 		_ = id
 	}
 	sort.Strings(ids)
-	return fmt.Sprintf("count=%d markers=%v docs=%v enum=%v", h.count, h.markers, ids, h.enum)
+	return fmt.Sprintf("count=%d markers=%v docs=%v enum=%v docvalues=%v", h.count, h.markers, ids, h.enum, h.dv)
 }
 
 func readHeld(r index.IndexReader, nw, nd int) (*heldSnap, error) {
@@ -558,6 +591,7 @@ func readHeld(r index.IndexReader, nw, nd int) (*heldSnap, error) {
 	if err != nil {
 		return nil, err
 	}
+	var internal []index.IndexInternalID
 	for {
 		id, err := dr.Next()
 		if err != nil {
@@ -573,10 +607,48 @@ func readHeld(r index.IndexReader, nw, nd int) (*heldSnap, error) {
 			return nil, err
 		}
 		h.enum = append(h.enum, ext)
+		internal = append(internal, append(index.IndexInternalID(nil), id...))
 	}
 	dr.Close()
+	// doc values through the same reader: ver has persisted doc values, tags goes through the un-inverting cache
+	dvr, err := r.DocValueReader([]string{"ver", "tags"})
+	if err != nil {
+		return nil, err
+	}
+	for i, id := range internal {
+		var ver string
+		var tags []string
+		if err := dvr.VisitDocValues(id, func(field string, term []byte) {
+			if field == "ver" {
+				ver = string(term)
+			} else if field == "tags" {
+				tags = append(tags, string(term))
+			}
+		}); err != nil {
+			return nil, err
+		}
+		sort.Strings(tags)
+		h.dv = append(h.dv, fmt.Sprintf("%s:%s%v", h.enum[i], ver, tags))
+	}
+	sort.Strings(h.dv)
 	sort.Strings(h.enum)
 	return h, nil
+}
+
+// dvExpected is what readHeld's doc-value lines must be for the versions the same reader returns from Document().
+func (h *heldSnap) dvExpected() []string {
+	var out []string
+	for id, v := range h.vers {
+		if v == "" {
+			continue
+		}
+		n, _ := verNumber(v)
+		tags := append([]string(nil), model.MakeDoc(id, n, false).Tags...)
+		sort.Strings(tags)
+		out = append(out, fmt.Sprintf("%s:%s%v", id, v, tags))
+	}
+	sort.Strings(out)
+	return out
 }
 
 func init() {
